@@ -11,7 +11,7 @@ OWN = {"P11_class", "P11_uline"}
 
 # (cfg of the exhaustive model, print 1 case in N) per tier
 PLAN = {
-    "quick": {"exhaustive": [("MCClassRules_q3.cfg", 60), ("MCClassRules_q1.cfg", 25)], "gen_tables": 400, "gen_clients": 4,
+    "quick": {"exhaustive": [("MCClassRules_q3.cfg", 20), ("MCClassRules_q1.cfg", 8)], "gen_tables": 1500, "gen_clients": 4,
               "gen_parts": 4, "nproc": 12},
     "thorough": {"exhaustive": [("MCClassRules_q3.cfg", 3), ("MCClassRules_q1.cfg", 1), ("MCClassRules_t3.cfg", 60),
                                 ("MCClassRules_t2.cfg", 60), ("MCClassRules_t1.cfg", 60)],
